@@ -146,6 +146,15 @@ func (ctx *Context) applyAtRecursively(pos int) int {
 		}
 	}
 
+	if len(ctx.stack) > 0 {
+		// The budget for nested actions is used up.  The remaining actions
+		// are abandoned; nothing must be left behind for the next match or
+		// the next call to Apply.
+		next = ctx.stack[0].EndPos
+		clear(ctx.stack)
+		ctx.stack = ctx.stack[:0]
+	}
+
 	return next
 }
 
